@@ -1931,9 +1931,20 @@ def JsonFile.toPickle (f : JsonFile) : PickleFile :=
 /-- semantics of a node id inside a JSON file, by variable name -/
 def evalJson (f : JsonFile) (u : Int) (α : String → Bool) : Bool := evalPickle f.toPickle u α
 
+/-- an edge of a node line points to a constant or to an EARLIER line -/
+def EdgeOK (l : List JLine) (c : Int) : Prop := c.natAbs = 1 ∨ ∃ l' ∈ l, l'.id = c.natAbs
+
+/-- children are written before parents (what `_make_node` relies on) -/
+inductive ChildrenFirst : List JLine → Prop
+  | nil : ChildrenFirst []
+  | snoc {l : List JLine} {ln : JLine} :
+      ChildrenFirst l → EdgeOK l ln.lo → EdgeOK l ln.hi → ChildrenFirst (l ++ [ln])
+
 /-- invariant of the recursion of `_dump_bdd`: `cache` = ids of the lines written so far,
-each line is the stored triple of its node, the set is closed under successors -/
+each line is the stored triple of its node, the set is closed under successors, children
+come first -/
 structure JOut (t : Tbl) (cache : List Nat) (out : List JLine) : Prop where
+  order : ChildrenFirst out
   ids : ∀ k, k ∈ cache ↔ ∃ ln ∈ out, ln.id = k
   line : ∀ ln ∈ out, ln.id ≠ 1 ∧ t.succ[ln.id]? = some ⟨ln.lvl, ln.lo, ln.hi⟩
   closed : Closed t cache
@@ -1976,8 +1987,10 @@ theorem dumpJsonF_spec (t : Tbl) :
               obtain ⟨j1, s1, m1⟩ := ih _ _ _ _ _ e1 hj
               obtain ⟨j2, s2, m2⟩ := ih _ _ _ _ _ e2 j1
               have m1' : n.lo.natAbs = 1 ∨ n.lo.natAbs ∈ c2 := m1.imp id (s2 _)
-              refine ⟨⟨?_, ?_, ?_⟩, fun x hx => List.mem_cons_of_mem _ (s2 x (s1 x hx)),
-                Or.inr List.mem_cons_self⟩
+              have toEdge : ∀ c : Int, (c.natAbs = 1 ∨ c.natAbs ∈ c2) → EdgeOK o2 c :=
+                fun c hc => hc.imp id (fun h => (j2.ids _).mp h)
+              refine ⟨⟨.snoc j2.order (toEdge _ m1') (toEdge _ m2), ?_, ?_, ?_⟩,
+                fun x hx => List.mem_cons_of_mem _ (s2 x (s1 x hx)), Or.inr List.mem_cons_self⟩
               · intro k
                 rw [List.mem_cons, j2.ids k]
                 constructor
@@ -2075,7 +2088,7 @@ theorem dumpJson_stores {m : Mgr} {roots : Roots} {f : JsonFile} (h : dumpJson m
     ∃ nodes, Stores m.tbl nodes f.toPickle ∧ (∀ u ∈ roots.values, u.natAbs = 1 ∨ u.natAbs ∈ nodes) := by
   obtain ⟨hv, _, _, cache, hc⟩ := dumpJson_parts h
   obtain ⟨j, _, hr⟩ := dumpJsonRoots_spec m.tbl _ _ _ _ _ hc
-    ⟨by simp, by simp, by intro r hr; simp at hr⟩
+    ⟨.nil, by simp, by simp, by intro r hr; simp at hr⟩
   refine ⟨cache, ⟨hv, j.closed, ?_, ?_⟩, hr⟩
   · intro k hk h1
     obtain ⟨ln, hl, hid⟩ := (j.ids k).mp hk
@@ -2107,6 +2120,165 @@ theorem dumpJson_spec {m : Mgr} (hI : Inv m) (hv : VarsOK m.tbl) {roots : Roots}
   obtain ⟨nodes, hst, hr⟩ := dumpJson_stores h
   exact ⟨hst.wf hI.wf.toWF hv, (dumpJson_parts h).2.1,
     fun α u hu => hst.eval hI.wf.toWF hv α u (hr u hu)⟩
+
+
+/-! ### JSON: `load_json` -/
+
+theorem M.bind_ok {α β : Type} {x : M α} {f : α → M β} {m m' : Mgr} {b : β}
+    (h : (x >>= f) m = (.ok b, m')) : ∃ a m1, x m = (.ok a, m1) ∧ f a m1 = (.ok b, m') := by
+  simp only [bind, M.bind'] at h
+  cases hx : x m with
+  | mk r m1 =>
+    rw [hx] at h
+    cases r with
+    | error e => simp at h
+    | ok a => exact ⟨a, m1, rfl, h⟩
+
+theorem dropList_lastLen (us : List Int) (m : Mgr) : (dropList us m).lastLen = m.lastLen := by
+  induction us generalizing m with
+  | nil => rfl
+  | cons u rest ih =>
+    rw [dropList, ih]
+    simp only [drop, decref]
+    split
+    · rfl
+    · split <;> rfl
+
+theorem dropOpt_lastLen (o : Option Int) (m : Mgr) : (dropOpt o m).lastLen = m.lastLen := by
+  cases o with
+  | none => rfl
+  | some u =>
+    simp only [dropOpt, drop, decref]
+    split
+    · rfl
+    · split <;> rfl
+
+/-- F10: `_load_json(load_order=True)` saves the *dict* returned by `configure` and passes it
+back as the value of `reordering`: after a successful load dynamic reordering is ENABLED,
+whatever it was before -/
+theorem loadJson_loadOrder_enables_reordering (f : JsonFile) (m m' : Mgr) (r : Roots)
+    (h : loadJson f true m = (.ok r, m')) : m'.lastLen.isSome = true := by
+  unfold loadJson at h
+  simp only [if_true] at h
+  obtain ⟨_, m1, _, h⟩ := M.bind_ok h
+  obtain ⟨_, m2, _, h⟩ := M.bind_ok h
+  obtain ⟨_, m3, _, h⟩ := M.bind_ok h
+  obtain ⟨cache, m4, _, h⟩ := M.bind_ok h
+  obtain ⟨ks, m5, _, h⟩ := M.bind_ok h
+  obtain ⟨us, m6, _, h⟩ := M.bind_ok h
+  generalize (releaseLoop true cache cache none m6) = rl at h
+  obtain ⟨rr, last, m7⟩ := rl
+  dsimp only at h
+  cases hfin : (liftE rr >>= fun _ => do
+      assertConsistent
+      let _ ← configure (some true)
+      pure ()) m7 with
+  | mk res m8 =>
+    rw [hfin] at h
+    cases res with
+    | error e => simp at h
+    | ok a =>
+      simp only [Prod.mk.injEq] at h
+      obtain ⟨_, hm⟩ := h
+      subst hm
+      rw [dropOpt_lastLen]
+      obtain ⟨_, m9, _, h2⟩ := M.bind_ok hfin
+      obtain ⟨_, m10, hac, h3⟩ := M.bind_ok h2
+      obtain ⟨_, m11, hcf, h4⟩ := M.bind_ok h3
+      simp only [pure, M.pure', Prod.mk.injEq] at h4
+      obtain ⟨_, hm⟩ := h4
+      subst hm
+      simp only [configure, bind, M.bind', M.get, M.set, pure, M.pure'] at hcf
+      simp only [Prod.mk.injEq] at hcf
+      obtain ⟨_, hm⟩ := hcf
+      subst hm
+      rfl
+
+
+theorem dumpJson_childrenFirst {m : Mgr} {roots : Roots} {f : JsonFile}
+    (h : dumpJson m roots = .ok f) : ChildrenFirst f.nodes := by
+  obtain ⟨_, _, _, cache, hc⟩ := dumpJson_parts h
+  obtain ⟨j, _, _⟩ := dumpJsonRoots_spec m.tbl _ _ _ _ _ hc
+    ⟨.nil, by simp, by simp, by intro r hr; simp at hr⟩
+  exact j.order
+
+/-- number of edges into node `u` -/
+def indeg (t : Tbl) (u : Nat) : Nat :=
+  t.succ.toList.foldl (fun acc x =>
+    acc + (if x.2.lo.natAbs = u then 1 else 0) + (if x.2.hi.natAbs = u then 1 else 0)) 0
+
+/-- reference counts are at least the in-degrees (part of the exact-count invariant of C06) -/
+def RefGeIndeg (m : Mgr) : Prop :=
+  ∀ (u : Nat) (n : Nd), m.tbl.node? u = some n → ∃ c, m.ref[u]? = some c ∧ indeg m.tbl u ≤ c
+
+/-- the receiving manager of a JSON load: invariant, named contiguous levels, exact unique
+table, counts covering the in-degrees, not inside a reordering context -/
+structure JsonTarget (m : Mgr) : Prop where
+  inv : Inv m
+  vars : VarsOK m.tbl
+  pred : PredShape m
+  refs : RefGeIndeg m
+  ctx : m.ctx = false
+
+/-- C12 for `_copy.load_json` on a `dd.autoref.BDD` (NOT proved here; tied to the code by the
+correspondence check only): every well-formed JSON content with children before parents
+loads — for either `load_order`, with dynamic reordering enabled or not, for the iteration
+orders `sched` Python's sets happen to have — into roots of the same container shape that
+denote, by variable name, what the file says; the manager invariant is kept.
+`load_order=True` needs the same variable names on both sides (`reorder(order)` refuses
+otherwise). -/
+def json_load_statement : Prop :=
+  ∀ (f : JsonFile) (loadOrder : Bool) (tgt : Mgr), PickleWF f.toPickle → ChildrenFirst f.nodes →
+    f.roots ≠ .none → RootsResolvable f.toPickle → JsonTarget tgt →
+    (loadOrder = true → ∀ v : String, tgt.tbl.vars.contains v = true → (f.levelOfVar.lookup v).isSome) →
+    ∃ sched roots' m', loadJson f loadOrder { tgt with sched := sched } = (.ok roots', m') ∧ Inv m' ∧
+      RootsRel (fun u r => m'.tbl.Mem r ∧ ∀ α, denBy m'.tbl r α = evalJson f u α) f.roots roots'
+
+/-- C12, JSON round trip at full strength -/
+def json_roundtrip_statement : Prop :=
+  ∀ (src : Mgr) (roots : Roots) (f : JsonFile) (loadOrder : Bool) (tgt : Mgr),
+    Inv src → VarsOK src.tbl → dumpJson src roots = .ok f → JsonTarget tgt →
+    (loadOrder = true → ∀ v : String, tgt.tbl.vars.contains v = true → src.tbl.vars.contains v = true) →
+    ∃ sched roots' m', loadJson f loadOrder { tgt with sched := sched } = (.ok roots', m') ∧ Inv m' ∧
+      LoadedAs src.tbl roots m'.tbl roots'
+
+theorem stores_resolvable {t : Tbl} {nodes : List Nat} {f : PickleFile} (hst : Stores t nodes f)
+    (hr : ∀ u ∈ f.roots.values, u.natAbs = 1 ∨ u.natAbs ∈ nodes) : RootsResolvable f := by
+  intro u hu
+  by_cases h1 : u.natAbs = 1
+  · exact Or.inl h1
+  · rcases hr u hu with h | h
+    · exact absurd h h1
+    · obtain ⟨n, _, hf⟩ := hst.inn _ h h1
+      exact Or.inr ⟨_, List.mem_of_find?_eq_some hf, rfl⟩
+
+/-- the JSON round trip follows from the (unproved) load half and the proved dump half -/
+theorem json_roundtrip_of_load (hL : json_load_statement) : json_roundtrip_statement := by
+  intro src roots f lo tgt hI hv hd ht hvars
+  obtain ⟨hwf, hroots, hev⟩ := dumpJson_spec hI hv hd
+  obtain ⟨nodes, hst, hr⟩ := dumpJson_stores hd
+  obtain ⟨hlov, _, hsome, _⟩ := dumpJson_parts hd
+  have hres : RootsResolvable f.toPickle :=
+    stores_resolvable hst (by show ∀ u ∈ f.roots.values, _; rw [hroots]; exact hr)
+  obtain ⟨sched, roots', m', e, I, R⟩ := hL f lo tgt hwf (dumpJson_childrenFirst hd)
+    (by rw [hroots]; exact hsome) hres ht (by
+      intro hlo v hv'
+      have := hvars hlo v hv'
+      rw [TreeMap.contains_eq_isSome_getElem?] at this
+      obtain ⟨l, hl⟩ := Option.isSome_iff_exists.mp this
+      have hm : (v, l) ∈ f.levelOfVar := by
+        rw [hlov]; exact TreeMap.mem_toList_iff_getElem?_eq_some.mpr hl
+      cases hlk : f.levelOfVar.lookup v with
+      | some x => rfl
+      | none =>
+        rw [List.lookup_eq_none_iff] at hlk
+        have := hlk (v, l) hm
+        simp at this)
+  refine ⟨sched, roots', m', e, I, ?_⟩
+  rw [hroots] at R
+  apply R.imp_mem
+  intro u hu r ⟨h1, h2⟩
+  exact ⟨h1, fun α => by rw [h2 α, hev α u hu]⟩
 
 
 end DD
